@@ -126,10 +126,48 @@ def projsin_formulae(ctx, crate):
                    "at (centre lon, lat, position lon, lat) = %s the code gives %s, the projection is %s" % bad[0] if bad[0][0] != "shape" else "unexpected shape %s" % (bad[0][1],), at=b.span, kind="N")
 
 
+def cone_in_ellipse(ctx, crate):
+    """N: a cell (its bounding cone of radius r) is declared inside the elliptical cone only if its
+    centre is inside the ellipse SHRUNK by r: `contains_cone` builds the test ellipse from
+    sin(a - r), sin(b - r) and the ellipse's own orientation.  (Growing instead of shrinking flags as
+    full cells that stick out by up to 2 r.)"""
+    from sym import Engine, show
+    clause = "full-only-if-inside"
+    fns = [p_ for p_ in crate.bodies if p_.endswith("EllipticalCone::contains_cone")]
+    if len(fns) != 1:
+        ctx.undecided(clause, "contains_cone", "found %s" % fns); return
+    b = ctx.anchor(crate, fns[0], clause)
+    if b is None: return
+    opq = {p_ for p_ in crate.bodies if p_.endswith("Ellipse::from_oriented") or p_.endswith("Ellipse::contains") or (p_.endswith(">::proj") and "ProjSIN" in p_)}
+    e = Engine(crate, opaque=opq); e.run(fns[0]); ctx.functions |= e.visited_fns
+    fo = [ev for ev in e.events.values() if ev.callee and ev.callee.endswith("Ellipse::from_oriented")]
+    S = ('deref', ('p', 'self'))
+    fa = ('fld', S, crate.field_index("sph_geom::elliptical_cone::EllipticalCone", "a")); fb = ('fld', S, crate.field_index("sph_geom::elliptical_cone::EllipticalCone", "b"))
+    r_ = ('p', 'radius')
+    def shrunk(t, axis):
+        return t[0] == 'call' and t[1].endswith("::sin") and t[2][0] == ('op', 'sub', 'f64', axis, r_)
+    ok = len(fo) == 1 and shrunk(fo[0].args[0], fa) and shrunk(fo[0].args[1], fb)
+    # and nothing but the outcome of that test makes the answer `true` (far hemisphere, cell larger than the ellipse: false)
+    r0 = Engine(crate, opaque=opq); rr = r0.run(fns[0])
+    consts = set(); seen = set()
+    def leaves(t, depth=0):
+        if t in seen or depth > 10: return
+        seen.add(t)
+        if t[0] == 'phi':
+            for o in r0.phi_ops.get(t, ()): leaves(o, depth + 1)
+        elif t[0] == 'c': consts.add(t[2])
+    if rr.returns: leaves(rr.ret)
+    ctx.report(clause, "contains_cone:true-only-from-the-ellipse-test", rr.returns and 1 not in consts, "the constant answers of contains_cone are all `false` (%s)" % sorted(consts) if 1 not in consts else
+               "contains_cone answers the constant `true` on some path (far hemisphere or oversized cell declared inside)", at=b.span, kind="N")
+    ctx.report(clause, "contains_cone:ellipse-shrunk-by-the-radius", ok, "the test ellipse has semi-axes sin(a - r), sin(b - r)" if ok else
+               "the test ellipse is built from %s" % ([show(a)[:40] for a in fo[0].args[:2]] if fo else "?"), at=b.span, kind="N")
+
+
 def run(ctx):
     crate = ctx.crate("rel")
     hemisphere(ctx, crate)
     projsin_formulae(ctx, crate)
+    cone_in_ellipse(ctx, crate)
     n = guard(ctx, crate)
     ctx.floor("guarded-entry-points", n, 5)
     if ctx.tier == "thorough":
